@@ -1612,7 +1612,39 @@ def m_np_imag(interp, x):
     return np.imag(x)
 
 
+def m_np_any(interp, x, *a, **k):
+    if isinstance(x, SBool):
+        return x
+    if isinstance(x, np.ndarray) and x.dtype == object and contains_sym(x):
+        if a or k.get('axis') is not None:
+            raise EngineError("np.any with axis on symbolic array")
+        r = SBool(sym.z3.BoolVal(False))
+        for v in x.flat:
+            r = r | (lift(v) if not isinstance(v, SBool) else v)
+        return r
+    if isinstance(x, Sym):
+        return x != 0
+    return interp.call_real(np.any, [x] + list(a), k)
+
+
+def m_np_all(interp, x, *a, **k):
+    if isinstance(x, SBool):
+        return x
+    if isinstance(x, np.ndarray) and x.dtype == object and contains_sym(x):
+        if a or k.get('axis') is not None:
+            raise EngineError("np.all with axis on symbolic array")
+        r = SBool(sym.z3.BoolVal(True))
+        for v in x.flat:
+            r = r & (lift(v) if not isinstance(v, SBool) else v)
+        return r
+    if isinstance(x, Sym):
+        return x != 0
+    return interp.call_real(np.all, [x] + list(a), k)
+
+
 DEFAULT_MODELS = {
+    np.any: m_np_any,
+    np.all: m_np_all,
     np.sqrt: _np_unary('sqrt', np.sqrt),
     np.exp: _np_unary('exp', np.exp),
     np.log10: _np_unary('log10', np.log10),
